@@ -94,7 +94,7 @@ package handler
 //@ invariant[C02] seqeq(stuff, pc.I, old(pc.cur), pc.cur)
 //@ invariant[C03] forall(k, old(pc.cur), pc.cur, pc.I[k] != 0xd3)
 //@ invariant[C02] pc.pbn == ite(old(pc.pbn) > pc.cur - old(pc.cur), old(pc.pbn) - (pc.cur - old(pc.cur)), 0)
-//@ decreases pc.N - pc.cur
+//@ decreases[C07,C09] pc.N - pc.cur
 
 //@ func (*Handler).FetchNextMessageFrame
 //@ requires[C07] rtcmHandler != nil && pc != nil && pc.byteChan != nil
@@ -121,7 +121,7 @@ package handler
 //@ invariant[C02] seqeq(frame, I, c0, pc.cur)
 //@ invariant[C03,C12] eatError == nil ==> I[c0] == 0xd3
 //@ invariant[C03,C12] eatError != nil ==> pc.cur == N && I[c0] != 0xd3
-//@ decreases 5 - i
+//@ decreases[C07,C09] 5 - i
 //@ loop 2
 //@ invariant 0 <= i && fresh(frame) && len(frame) >= 5
 //@ invariant[C01] bits(frame, 14, 10) == messageLength
@@ -129,7 +129,7 @@ package handler
 //@ invariant[C02] i <= wantBytes && len(frame) == 5 + i && pc.cur == c0 + 5 + i && pc.pbn == 0
 //@ invariant[C02] seqeq(frame, I, c0, pc.cur)
 //@ invariant[C03,C12] leaderAt(I, N, c0) && messageLength == lenAt(I, c0)
-//@ decreases wantBytes - i
+//@ decreases[C07,C09] wantBytes - i
 
 // HandleMessages: the stamp records, with every message sent, the position of
 // the input cursor after that message; consecutive stamps therefore delimit the
@@ -158,7 +158,7 @@ package handler
 //@ invariant[C01] forall(k, n0, sentn(ch_out), sent(ch_out)[k].MessageType >= 0 ==> ValidFrame(sent(ch_out)[k].RawData) && sent(ch_out)[k].MessageType == bits(sent(ch_out)[k].RawData, 24, 12))
 //@ invariant[C03] forall(k, n0, sentn(ch_out), SegJunk(I, N, ite(k == n0, s0, stamp(ch_out)[k-1]), stamp(ch_out)[k], sent(ch_out)[k].MessageType) && SegFrame(I, N, ite(k == n0, s0, stamp(ch_out)[k-1]), stamp(ch_out)[k], sent(ch_out)[k].MessageType) && SegTrunc(I, N, ite(k == n0, s0, stamp(ch_out)[k-1]), stamp(ch_out)[k], sent(ch_out)[k].MessageType))
 //@ invariant[C12] forall(k, n0, sentn(ch_out), SegCorrupt(I, N, ite(k == n0, s0, stamp(ch_out)[k-1]), stamp(ch_out)[k], sent(ch_out)[k].MessageType))
-//@ decreases N - pb.cur
+//@ decreases[C07,C09] N - pb.cur
 
 // ReadableWF: what String relies on in a message's decoded form.  Messages
 // delivered by the framing have Readable == nil; Analyse establishes the rest.
@@ -270,6 +270,7 @@ package handler
 //@ decreases mod(div(now.ns, DAY) + 4, 7)
 
 //@ func New
+//@ arith wrap
 //@ let T = startTime.ns
 //@ ensures result != nil && fresh(result)
 //@ ensures[C06,C17] HandlerInv(result)
